@@ -92,7 +92,7 @@ def gen_cases(ctx, rnd, count, maxn, multipool=0):
                     if multipool and p2 in ("inmem", "inmem_file"):
                         p2 = "object"
                     calls.append(dict(api="rejection", path=p2, nbatches=rnd.choice([0, 1, 2, 3, n + 1]), group=group, **opts))
-        cases.append({"id": "c05-%s%d" % ("mp-" if multipool else "", j), "n": n, "seed": rnd.randint(0, 10**6), "pool": rnd.choice(["rec", "rec", "serial"]),
+        cases.append({"id": "c05-%s%d" % (("mp%d-" % multipool) if multipool else "", j), "n": n, "seed": rnd.randint(0, 10**6), "pool": rnd.choice(["rec", "rec", "serial"]),
                       "pool_size": rnd.choice([1, 2, 3, 4]), "calls": calls, "workdir": ctx.workdir, "multipool": multipool})
     return cases
 
